@@ -46,7 +46,8 @@ def merge_expressions(exps: BoolExpList) -> BoolExpList:
         e = e.xreplace(emap)
         e = custom_simplify_logic(e)
 
-        if s.name[0:4] != "_ret":
+        # return symbols are `_ret` or `_ret.<i>...` (a variable can be named _retx)
+        if s.name != "_ret" and not s.name.startswith("_ret."):
             emap[s] = e
         else:
             n_exps.append((s, e))
